@@ -84,6 +84,8 @@ def strategy_impl(draw, tier):
         "boundary": draw(st.sampled_from(M.RULES)),
         "fill": draw(st.sampled_from([0.0, 1.0, -2.0])),
         "name": draw(st.sampled_from(["phi", "T", None])),
+        # the same operations with metric weighting (1-D metrics at every position of the operated axes)
+        "weighted": draw(st.sampled_from([False, False, True])),
     }
 
 
@@ -108,6 +110,10 @@ def build_ds(case):
         vals = (np.arange(int(np.prod(shp, dtype=int))).reshape(shp) * 1.0 + 10.0 * c["seed"]) if shp else np.float64(c["seed"] + 0.5)
         coords[c["name"]] = xr.DataArray(vals, dims=list(c["dims"]), attrs=dict(c["attrs"]))
     ds = xr.Dataset({"_shape": (tuple(sizes), np.zeros(tuple(sizes.values())))}, coords=coords)
+    for a in case["axes"]:
+        for p in a["positions"]:
+            d = gen.dim_name(a["name"], p)
+            ds["m_" + d] = xr.DataArray(1.0 + 0.25 * np.arange(sizes[d]), dims=[d])
     return ds, sizes
 
 
@@ -117,7 +123,9 @@ def check(case, ctx):
     axes = case["axes"]
     by_name = {a["name"]: a for a in axes}
     ds, sizes = build_ds(case)
-    grid = must_return("Grid construction", build.make_grid, ds, axes, periodic=False)
+    weighted = bool(case.get("weighted"))
+    metrics_arg = {(a["name"],): ["m_" + gen.dim_name(a["name"], p) for p in a["positions"]] for a in axes}
+    grid = must_return("Grid construction", build.make_grid, ds, axes, periodic=False, metrics=metrics_arg)
     dims = list(case["dims"])
     a0 = np.asarray(case["values"], dtype=np.float64)
 
@@ -134,9 +142,16 @@ def check(case, ctx):
 
     def run(da):
         kw = dict(to=dict(case["to"]), boundary=case["boundary"], fill_value=case["fill"], keep_coords=case["keep_coords"])
+        if weighted:
+            kw["metric_weighted"] = {n: (n,) for n in case["op_axes"]}
         return must_return(f"Grid.{case['op']}", getattr(grid, case["op"]), da, list(case["op_axes"]), **kw)
 
-    got = run(make_input(case["carry"]))
+    # with metric weighting the data are multiplied by a variable of the dataset, which xarray aligns by label: wrong
+    # labels are then a different (ill-formed) request, not a relabelling of the same one -> only the property's own
+    # domain (dataset coordinates or none) is used there
+    carries = ("none", "dataset") if weighted else ("none", "dataset", "mislabelled")
+    carry0 = case["carry"] if case["carry"] in carries else "dataset"
+    got = run(make_input(carry0))
 
     # ---- reference values
     a = a0
@@ -145,25 +160,33 @@ def check(case, ctx):
     for n in case["op_axes"]:
         frm, to = case["data_pos"][n], case["to"][n]
         k = rdims.index(gen.dim_name(n, frm))
+        if weighted:
+            shp = [1] * a.ndim
+            shp[k] = a.shape[k]
+            a = a * (1.0 + 0.25 * np.arange(a.shape[k])).reshape(shp)
         if case["op"] == "cumsum":
             a, _ = M.cumsum(a, k, by_name[n]["n"], frm, to, case["boundary"], case["fill"])
         else:
             a = M.stencil(a, k, by_name[n]["n"], frm, to, case["op"], case["boundary"], case["fill"])
         old_dims.append(rdims[k])
         rdims[k] = gen.dim_name(n, to)
+        if weighted:
+            shp = [1] * a.ndim
+            shp[k] = a.shape[k]
+            a = a / (1.0 + 0.25 * np.arange(a.shape[k])).reshape(shp)
     if list(got.dims) != rdims:
         raise Violation("result dims differ", got=list(got.dims), expected=rdims)
-    if not np.array_equal(np.asarray(got.values), a):
+    if not (np.allclose(np.asarray(got.values), a, rtol=1e-12, atol=1e-12) if weighted else np.array_equal(np.asarray(got.values), a)):
         raise Violation("values depend on the coordinate labels of the input (or differ from the reference)",
                         carry=case["carry"], got=np.asarray(got.values).tolist(), expected=a.tolist())
     # values identical for every labelling
-    for other in ("none", "dataset", "mislabelled"):
-        if other != case["carry"]:
+    for other in carries:
+        if other != carry0:
             g2 = run(make_input(other))
             if not np.array_equal(np.asarray(g2.values), np.asarray(got.values)):
-                raise Violation("values differ between labellings of the same input", a=case["carry"], b=other)
+                raise Violation("values differ between labellings of the same input", a=carry0, b=other)
             if set(g2.coords) != set(got.coords):
-                raise Violation("coordinates of the result depend on the labelling of the input", a=case["carry"], b=other,
+                raise Violation("coordinates of the result depend on the labelling of the input", a=carry0, b=other,
                                 coords_a=sorted(map(str, got.coords)), coords_b=sorted(map(str, g2.coords)))
 
     # ---- coordinate model
@@ -197,7 +220,7 @@ def check(case, ctx):
 
     touching = any(any(d.startswith(n.lower()) for n in case["op_axes"]) for c in case["ndcoords"] for d in c["dims"])
     missing_dc = any(d not in case["dimcoords"] for d in rdims)
-    classes = [f"op:{case['op']}", f"carry:{case['carry']}", f"keep:{case['keep_coords']}", f"nnd:{len(case['ndcoords'])}"]
+    classes = [f"op:{case['op']}", f"weighted:{weighted}", f"carry:{case['carry']}", f"keep:{case['keep_coords']}", f"nnd:{len(case['ndcoords'])}"]
     classes += [f"shift:{case['data_pos'][n]}>{case['to'][n]}" for n in case["op_axes"]]
     if missing_dc:
         classes.append("missing-dimcoord")
